@@ -131,7 +131,7 @@ class Skeleton:
                 sk.put(st, out, ctx.add(ctx.mulc(sk.coef_of(st, a), 2), 1 if getattr(sk, 'canary', False) else 0))
             else:
                 out, a = args[0], args[1]
-                sk.put(st, out, ctx.mulc(sk.coef_of(st, a), 2))
+                sk.put(st, out, ctx.add(ctx.mulc(sk.coef_of(st, a), 2), 1 if getattr(sk, 'canary', False) else 0))
             return None
 
         def h_add(ex, st, args, callee):
@@ -151,7 +151,7 @@ class Skeleton:
 
         def h_square_inplace(ex, st, args, callee):
             a = args[0]
-            sk.put(st, a, ctx.mulc(sk.coef_of(st, a), 2))
+            sk.put(st, a, ctx.add(ctx.mulc(sk.coef_of(st, a), 2), 1 if getattr(sk, 'canary', False) else 0))
             return None
         if self.kind == 'smul':
             hooks = {'4u2564U2563mul17h': h_decode, 'GroupElement$GT$6double17h': h_dbl, 'core..ops..arith..Add$GT$3add17h': h_add}
@@ -387,16 +387,40 @@ def find_smul(module, which):
     raise Unsupported('G<P> * Fr (%s) not found as an out-of-line function' % which)
 
 
+def find_pow(module, which):
+    """monomorphisations of FieldElement::pow: Fq / Fr (32-byte result, told apart by the modulus they load) and Fq12"""
+    for name in module.spans:
+        if 'fields12FieldElement3pow17h' in name:
+            s0, e0 = module.spans[name]
+            hdr = module.text[s0:module.text.index('\n', s0)]
+            size = int(re.search(r'dereferenceable\((\d+)\)', hdr).group(1))
+            body = module.text[s0:e0]
+            if which == 'fq12' and size == 384:
+                return name, size
+            if which in ('fq', 'fr') and size == 32:
+                usesq = 'fields..FQ$u20$as' in body
+                if (which == 'fq') == usesq:
+                    return name, size
+    raise Unsupported('FieldElement::pow (%s) not found as an out-of-line function' % which)
+
+
 if __name__ == '__main__':
     import kernels
     ll, repo, which = sys.argv[1:4]
     mod = Module(ll)
     consts = kernels.source_constants(repo)
     rr = kernels.unlimbs(consts['FR'])
+    qq = kernels.unlimbs(consts['FQ'])
     res = {}
     try:
-        name, size = find_smul(mod, which)
-        sk = Skeleton(mod, consts, name, 'smul', size, rr)
+        if which in ('g1', 'g2'):
+            name, size = find_smul(mod, which)
+            sk = Skeleton(mod, consts, name, 'smul', size, rr)
+        else:
+            name, size = find_pow(mod, which)
+            sk = Skeleton(mod, consts, name, 'pow_fp' if which in ('fq', 'fr') else 'pow12', size, qq if which == 'fq' else rr)
+            one = consts['FR_ONE'] if which == 'fr' else consts['FQ_ONE']
+            sk.one_limbs = list(one) + [0] * (size // 8 - 4)
         sk.canary = len(sys.argv) > 4 and sys.argv[4] == 'canary'
         res = sk.run()
         res['function'] = name
